@@ -48,8 +48,8 @@ INSTANCES = [
     {'name': 'seq_2g', 'src': 'future.cpp', 'engine': 'cbmc-seq', 'steps': 1, 'nthreads': 1, 'preempts': 0, 'seq_unroll': True,
      'defs': {'VF_RESULT': 0, 'VF_GETTERS': 2, 'VF_SEQ_ORDER': 1, 'VF_VIA_ONCE': 1, 'VF_INLINE': 1, 'VF_OPS_A': 0x1f, 'VF_OPS_B': 0x1f,
               'VF_MAIN_GET': 1},
-     'unwind': 2, 'timeout': 1500,
-     'leak_check': True, 'shims': ['moodycamel'], 'devirt': True, 'spin_loops': True, 'tiers': ['quick', 'thorough'], 'bounds': SEQ},
+     'unwind': 1, 'timeout': 1500,
+     'leak_check': True, 'shims': ['moodycamel'], 'devirt': True, 'spin_loops': True, 'tiers': ['experimental'], 'bounds': SEQ},   # symex > 4 min CPU: not in a delivered tier
     I('int_1g', {'VF_RESULT': 0, 'VF_GETTERS': 1, 'VF_MAIN_GET': 0}, 2, 3, G1,
       thorough={'steps': 3, 'checks': RED, 'defs': {'VF_RESULT': 0, 'VF_GETTERS': 1, 'VF_MAIN_GET': 1}}),
     # two getters: A get(); B one of wait_for(0) / is_ready() / wait_until(past) / wait(), then optionally get()
